@@ -13,13 +13,15 @@ def run(ctx):
                 "streams, page tree walked in document order with inherited attributes, each page's content streams decoded and "
                 "lexed by PdfLex inside TLC) and by the library (PdfReader/PdfDocument page list, ContentParser on the decoded "
                 "content).  Both must give the authored page count, MediaBox, rotation and - through the authoring model of "
-                "ContentOps.tla - the authored content operators with operands within the documented rounding.  Non-trivial = "
+                "ContentOps.tla - the authored content operators with operands within the documented rounding.  Interactive documents "
+                "(annotations of 14 kinds, form fields of 6 kinds; module Interactive) must in addition show, to the reference reader, "
+                "exactly the authored annotations on each page and the authored fields under /AcroForm.  Non-trivial = "
                 "document with at least one numeric or string operand in its content; distinct by hash.")
-    ctx.assumptions = ["authoring API subset as in C21 (no images, annotations, outlines: those are covered by C24, C10/C28)",
+    ctx.assumptions = ["content authoring API subset as in C21; annotations and form fields as in C03 (MCDoc.DocX); images and outlines are covered by C24 and C28",
                        "a page carries either a graphics program or a text/marked-content program, so that the order in which Page interleaves its two contexts is not part of the expectation",
                        "(object streams, cross-reference stream, uncompressed) not generated, see C03"]
     of = c03.generate_docs(ctx, thorough)
-    tp = c03.run_docs(ctx, of, ("chk_pages",))
+    tp = c03.run_docs(ctx, of, ("chk_pages", "chk_interactive"))
     vlib.validate_cases(ctx, "syntax", "FileTrace", tp, "readback", describe=c03.describe, timeout=6000, marker="file")
     cases = vlib.split_cases(vlib.read_ndjson(tp), marker="file")
     for c in cases:
